@@ -1871,3 +1871,39 @@ func specAllWritesOK(t0, m0, b0 int) bool {
 //@   loop 1 invariant C15.create.l1.distinct: forall i int, j int :: lo(all.pdrs) <= i && i < j && j <= lo(all.pdrs)+rangeidx ==> at(all.pdrs, i).ctrID != at(all.pdrs, j).ctrID
 //@   loop 1 invariant C16.create.l1.envelope: specPortsOrdered(all.pdrs) && specQFIsValid(all.qers) && specConfEnvelope(up4)
 //@   loop 2 invariant C15.create.l2.inv: up4.ueAddrToFSEID != nil && up4.fseidToUEAddr != nil
+
+//@ func (up4 *UP4) sendUpdate(all PacketForwardingRules, updated PacketForwardingRules) (err error)
+//@   requires specUP4Inv(up4, specAppCells(), specSessCells(), specCounterCells())
+//@   requires C16.update.envelope: specConfEnvelope(up4) && specRulesEnvelope(all.pdrs, all.qers, specCounterCells())
+//@   ensures C15.update.inv: specUP4Inv(up4, specAppCells(), specSessCells(), specCounterCells())
+//@   ensures C15.update.reject: err == nil ==> specAllWritesOK(old[int](glen("p4table")), old[int](glen("p4meter")), old[int](glen("p4batch")))
+//@   ensures C15.update.pools: gsSame("set", dynRef(specCounterPoolOf(up4))) && gsSame("set", dynRef(up4.appMeterCellIDsPool)) && gsSame("set", dynRef(up4.sessMeterCellIDsPool))
+//@   loop 1 invariant C15.update.l1.inv: up4.ueAddrToFSEID != nil && up4.fseidToUEAddr != nil
+
+// specCountersOwned: the counter cells of the rules are inside the array and not free.
+func specCountersOwned(up4 *UP4, pdrs []pdr, ctrs int64) bool {
+	return forall(func(i int) bool {
+		return implies(lo(pdrs) <= i && i < hi(pdrs), int64(at(pdrs, i).ctrID) < ctrs)
+	})
+}
+
+//@ func (up4 *UP4) sendDelete(deleted PacketForwardingRules) (err error)
+//@   requires specUP4Inv(up4, specAppCells(), specSessCells(), specCounterCells())
+//@   requires C16.delete.envelope: specConfEnvelope(up4) && specRulesEnvelope(deleted.pdrs, deleted.qers, specCounterCells())
+//@   ensures C15.delete.inv: specUP4Inv(up4, specAppCells(), specSessCells(), specCounterCells())
+//@   ensures C15.delete.reject: err == nil ==> forall k int :: old[int](glen("p4table")) <= k && k < old[int](glen("p4table"))+len(deleted.pdrs) ==> specWriteTolerated(gentry("p4table", k))
+//@   ensures C15.delete.keep: err != nil ==> gsSame("set", dynRef(specCounterPoolOf(up4))) && gsSame("set", dynRef(up4.appMeterCellIDsPool)) && gsSame("set", dynRef(up4.sessMeterCellIDsPool))
+//@   ensures C15.delete.released: err == nil ==> forall i int, v uint64 :: lo(deleted.pdrs) <= i && i < hi(deleted.pdrs) && v == uint64(at(deleted.pdrs, i).ctrID) ==> setHas(specCounterPoolOf(up4), v)
+//@   ensures C15.delete.onlythose: forall v uint64 :: setHas(specCounterPoolOf(up4), v) && !old[bool](setHas(specCounterPoolOf(up4), v)) ==> exists i int :: lo(deleted.pdrs) <= i && i < hi(deleted.pdrs) && v == uint64(at(deleted.pdrs, i).ctrID)
+//@   loop 1 invariant C15.delete.l1.inv: specUP4Inv(up4, specAppCells(), specSessCells(), specCounterCells()) && specConfEnvelope(up4) && specRulesEnvelope(deleted.pdrs, deleted.qers, specCounterCells())
+//@   loop 1 invariant C15.delete.l1.released: forall i int, v uint64 :: lo(deleted.pdrs) <= i && i <= lo(deleted.pdrs)+rangeidx && v == uint64(at(deleted.pdrs, i).ctrID) ==> setHas(specCounterPoolOf(up4), v)
+//@   loop 1 invariant C15.delete.l1.onlythose: forall v uint64 :: setHas(specCounterPoolOf(up4), v) && !old[bool](setHas(specCounterPoolOf(up4), v)) ==> exists i int :: lo(deleted.pdrs) <= i && i <= lo(deleted.pdrs)+rangeidx && v == uint64(at(deleted.pdrs, i).ctrID)
+//@   loop 1 invariant C15.delete.l1.writes: forall k int :: old[int](glen("p4table")) <= k && k < old[int](glen("p4table"))+len(deleted.pdrs) ==> specWriteTolerated(gentry("p4table", k))
+//@   loop 2 invariant C15.delete.l2.inv: specUP4Inv(up4, specAppCells(), specSessCells(), specCounterCells())
+//@   loop 2 invariant C15.delete.l2.released: forall i int, v uint64 :: lo(deleted.pdrs) <= i && i < hi(deleted.pdrs) && v == uint64(at(deleted.pdrs, i).ctrID) ==> setHas(specCounterPoolOf(up4), v)
+//@   loop 2 invariant C15.delete.l2.onlythose: forall v uint64 :: setHas(specCounterPoolOf(up4), v) && !old[bool](setHas(specCounterPoolOf(up4), v)) ==> exists i int :: lo(deleted.pdrs) <= i && i < hi(deleted.pdrs) && v == uint64(at(deleted.pdrs, i).ctrID)
+//@   loop 2 invariant C15.delete.l2.writes: forall k int :: old[int](glen("p4table")) <= k && k < old[int](glen("p4table"))+len(deleted.pdrs) ==> specWriteTolerated(gentry("p4table", k))
+//@   loop 3 invariant C15.delete.l3.inv: specUP4Inv(up4, specAppCells(), specSessCells(), specCounterCells())
+//@   loop 3 invariant C15.delete.l3.released: forall i int, v uint64 :: lo(deleted.pdrs) <= i && i < hi(deleted.pdrs) && v == uint64(at(deleted.pdrs, i).ctrID) ==> setHas(specCounterPoolOf(up4), v)
+//@   loop 3 invariant C15.delete.l3.onlythose: forall v uint64 :: setHas(specCounterPoolOf(up4), v) && !old[bool](setHas(specCounterPoolOf(up4), v)) ==> exists i int :: lo(deleted.pdrs) <= i && i < hi(deleted.pdrs) && v == uint64(at(deleted.pdrs, i).ctrID)
+//@   loop 3 invariant C15.delete.l3.writes: forall k int :: old[int](glen("p4table")) <= k && k < old[int](glen("p4table"))+len(deleted.pdrs) ==> specWriteTolerated(gentry("p4table", k))
